@@ -1,28 +1,39 @@
-(* Model G — Server.ListenAndServe / acceptTransports / consumeTransports / Close
-   (server.go) as a labelled transition system: one acceptor goroutine per
-   listener, the transport consumer, and the Close call, sharing the errgroup
-   context, the listeners and the transport queue.  A select is a
-   nondeterministic choice among its ready branches, so every ready branch is a
-   label; disabled labels are no-ops and every list of labels is a schedule. *)
-From Coq Require Import List Arith Bool Lia.
+(* Model G, part 2 — Server.ListenAndServe / acceptTransports / consumeTransports /
+   Close (server.go) as a labelled transition system: one acceptor goroutine per
+   listener, the transport consumer, the Close call, and ListenAndServe's own
+   goroutine waiting for the group.  They share the server's cancellation, the
+   errgroup's first error, the listeners and the transport queue.
+
+   A select is a nondeterministic choice among its ready branches, so every
+   ready branch is a label; disabled labels are no-ops and every list of labels
+   is a schedule.  [fixed = false] is the tree as found (Close closes the queue,
+   the result is taken from the group's first error, a transport held at
+   shutdown is dropped); [fixed = true] is the repaired code.  The goroutines
+   serving accepted transports are Life/Handler.v.  Definitions only. *)
+From Coq Require Import List Arith Bool.
 Import ListNotations.
 
-Inductive aerr := ECtx | EListener.                 (* context error / a listener's own error *)
-Inductive apc := AAccept | ASend | ADone (e : aerr). (* in Accept / holding a transport at the select / returned *)
+Inductive aerr := ECtx | EListener.                 (* context error / a listener's own closing error *)
+Inductive apc := AAccept | ASend | ADone.           (* in Accept / holding a transport at the select / returned *)
 Inductive cpc := CSelect | CDone.
+Inductive serve_result := ErrServerClosed | ListenerError | NoError.
+Inductive mpc := MWait | MReturned (r : serve_result).
 
 Record gst := {
-  srv_cancelled : bool;         (* Close has cancelled the server's context *)
-  first_err : option aerr;      (* errgroup: the first error returned, which cancels the group context *)
+  cancelled : bool;             (* Close has cancelled the server's own context *)
+  first_err : option aerr;      (* errgroup: the first error returned (it cancels the group context) *)
   lclosed : list bool;          (* per listener: closed *)
   pending : list nat;           (* per listener: connections waiting to be accepted *)
   acc : list apc;               (* per listener: its acceptor goroutine *)
   queue : nat;                  (* transports in srv.transportChan *)
   qclosed : bool;               (* srv.transportChan was closed (only the tree as found does that) *)
   cons : cpc;
-  handlers : nat;               (* handleChannel goroutines started *)
-  close_todo : nat;             (* steps of Close still to do; 0 = not called or finished *)
+  served : nat;                 (* transports handed to a handleChannel goroutine *)
+  released : nat;               (* transports closed without being served *)
+  leaked : nat;                 (* transports dropped: neither served nor closed *)
+  close_todo : nat;             (* steps of Close still to do *)
   close_called : bool;
+  main : mpc;
   panicked : bool
 }.
 
@@ -36,9 +47,11 @@ Inductive glabel :=
 | ConsCtx                  (* the consumer sees the context cancelled *)
 | ConsNil                  (* the consumer receives from the CLOSED queue: a nil transport *)
 | CloseCall                (* Close is called *)
-| CloseStep.               (* Close performs its next step *)
+| CloseStep                (* Close performs its next step *)
+| MainReturn.              (* eg.Wait returns (all goroutines of the group ended); ListenAndServe returns *)
 
-Definition grp_cancelled (s : gst) : bool := srv_cancelled s || match first_err s with Some _ => true | None => false end.
+Definition grp_cancelled (s : gst) : bool :=
+  cancelled s || match first_err s with Some _ => true | None => false end.
 
 Fixpoint set_nth {A} (l : list A) (i : nat) (x : A) : list A :=
   match l, i with
@@ -47,113 +60,131 @@ Fixpoint set_nth {A} (l : list A) (i : nat) (x : A) : list A :=
   | y :: r, S i' => y :: set_nth r i' x
   end.
 
-Definition with_acc (s : gst) (i : nat) (p : apc) (ferr : option aerr) (pend : list nat) (q : nat) (pan : bool) : gst :=
-  {| srv_cancelled := srv_cancelled s; first_err := ferr; lclosed := lclosed s; pending := pend; acc := set_nth (acc s) i p;
-     queue := q; qclosed := qclosed s; cons := cons s; handlers := handlers s; close_todo := close_todo s;
-     close_called := close_called s; panicked := pan |}.
 Definition first (s : gst) (e : aerr) : option aerr := match first_err s with Some x => Some x | None => Some e end.
 
 Definition apc_is (p : option apc) (q : apc) : bool :=
   match p, q with
-  | Some AAccept, AAccept | Some ASend, ASend => true
+  | Some AAccept, AAccept | Some ASend, ASend | Some ADone, ADone => true
   | _, _ => false
   end.
 
-(* fixed = true: the repaired Close does not close the transport queue (D14) *)
+Definition all_done (s : gst) : bool :=
+  forallb (fun p => match p with ADone => true | _ => false end) (acc s) &&
+  match cons s with CDone => true | CSelect => false end.
+
+(* what ListenAndServe returns once eg.Wait has returned *)
+Definition serve_result_of (fixed : bool) (s : gst) : serve_result :=
+  if fixed && cancelled s then ErrServerClosed
+  else match first_err s with
+       | Some ECtx => ErrServerClosed
+       | Some EListener => ListenerError
+       | None => NoError
+       end.
+
+(* generic update: the fields a step may change *)
+Definition upd (s : gst) (ferr : option aerr) (pend : list nat) (a : list apc) (q : nat) (c : cpc)
+               (sv rl lk : nat) (pan : bool) : gst :=
+  {| cancelled := cancelled s; first_err := ferr; lclosed := lclosed s; pending := pend; acc := a;
+     queue := q; qclosed := qclosed s; cons := c; served := sv; released := rl; leaked := lk;
+     close_todo := close_todo s; close_called := close_called s; main := main s; panicked := pan |}.
+
+Definition upd_close (s : gst) (canc : bool) (lc : list bool) (qc : bool) (todo : nat) (called : bool) : gst :=
+  {| cancelled := canc; first_err := first_err s; lclosed := lc; pending := pending s; acc := acc s;
+     queue := queue s; qclosed := qc; cons := cons s; served := served s; released := released s; leaked := leaked s;
+     close_todo := todo; close_called := called; main := main s; panicked := panicked s |}.
+
 Definition gstep (fixed : bool) (backlog : nat) (s : gst) (l : glabel) : gst :=
   if panicked s then s else
   match l with
   | AcceptGet i =>
-      if apc_is (nth_error (acc s) i) AAccept && Nat.ltb 0 (nth i (pending s) 0)
-      then with_acc s i ASend (first_err s) (set_nth (pending s) i (nth i (pending s) 0 - 1)) (queue s) false else s
+      if apc_is (nth_error (acc s) i) AAccept && Nat.ltb 0 (nth i (pending s) 0) && negb (nth i (lclosed s) false)
+      then upd s (first_err s) (set_nth (pending s) i (nth i (pending s) 0 - 1)) (set_nth (acc s) i ASend)
+                 (queue s) (cons s) (served s) (released s) (leaked s) false
+      else s
   | AcceptCtx i =>
       if apc_is (nth_error (acc s) i) AAccept && grp_cancelled s
-      then with_acc s i (ADone ECtx) (first s ECtx) (pending s) (queue s) false else s
+      then upd s (first s ECtx) (pending s) (set_nth (acc s) i ADone) (queue s) (cons s) (served s) (released s) (leaked s) false
+      else s
   | AcceptClosed i =>
       if apc_is (nth_error (acc s) i) AAccept && nth i (lclosed s) false
-      then with_acc s i (ADone EListener) (first s EListener) (pending s) (queue s) false else s
+      then upd s (first s EListener) (pending s) (set_nth (acc s) i ADone) (queue s) (cons s) (served s) (released s) (leaked s) false
+      else s
   | SendQ i =>
       if apc_is (nth_error (acc s) i) ASend then
-        if qclosed s then with_acc s i ASend (first_err s) (pending s) (queue s) true      (* send on closed channel *)
-        else if Nat.ltb (queue s) (S backlog) then with_acc s i AAccept (first_err s) (pending s) (S (queue s)) false
+        if qclosed s then upd s (first_err s) (pending s) (acc s) (queue s) (cons s) (served s) (released s) (leaked s) true  (* send on closed channel *)
+        else if Nat.leb (queue s) backlog   (* room in the buffer, or (backlog 0) the hand-off slot *)
+        then upd s (first_err s) (pending s) (set_nth (acc s) i AAccept) (S (queue s)) (cons s) (served s) (released s) (leaked s) false
         else s
       else s
   | SendCtx i =>
       if apc_is (nth_error (acc s) i) ASend && grp_cancelled s
-      then with_acc s i (ADone ECtx) (first s ECtx) (pending s) (queue s) false else s
+      then if fixed
+           then upd s (first s ECtx) (pending s) (set_nth (acc s) i ADone) (queue s) (cons s) (served s) (S (released s)) (leaked s) false
+           else upd s (first s ECtx) (pending s) (set_nth (acc s) i ADone) (queue s) (cons s) (served s) (released s) (S (leaked s)) false
+      else s
   | ConsTake =>
       match cons s, queue s with
-      | CSelect, S q =>
-          {| srv_cancelled := srv_cancelled s; first_err := first_err s; lclosed := lclosed s; pending := pending s; acc := acc s;
-             queue := q; qclosed := qclosed s; cons := CSelect; handlers := S (handlers s); close_todo := close_todo s;
-             close_called := close_called s; panicked := false |}
+      | CSelect, S q => upd s (first_err s) (pending s) (acc s) q CSelect (S (served s)) (released s) (leaked s) false
       | _, _ => s
       end
   | ConsCtx =>
       match cons s with
-      | CSelect =>
-          if grp_cancelled s then
-            {| srv_cancelled := srv_cancelled s; first_err := first_err s; lclosed := lclosed s; pending := pending s; acc := acc s;
-               queue := queue s; qclosed := qclosed s; cons := CDone; handlers := handlers s; close_todo := close_todo s;
-               close_called := close_called s; panicked := false |}
-          else s
+      | CSelect => if grp_cancelled s
+                   then upd s (first_err s) (pending s) (acc s) (queue s) CDone (served s) (released s) (leaked s) false
+                   else s
       | CDone => s
       end
   | ConsNil =>
       match cons s, queue s with
-      | CSelect, O =>
-          if qclosed s then
-            {| srv_cancelled := srv_cancelled s; first_err := first_err s; lclosed := lclosed s; pending := pending s; acc := acc s;
-               queue := 0; qclosed := true; cons := CSelect; handlers := handlers s; close_todo := close_todo s;
-               close_called := close_called s; panicked := true |}   (* NewServerChannel(nil): transport cannot be nil *)
-          else s
+      | CSelect, O => if qclosed s
+                      then upd s (first_err s) (pending s) (acc s) 0 CSelect (served s) (released s) (leaked s) true  (* NewServerChannel(nil) *)
+                      else s
       | _, _ => s
       end
   | CloseCall =>
-      if close_called s then s else
-      {| srv_cancelled := srv_cancelled s; first_err := first_err s; lclosed := lclosed s; pending := pending s; acc := acc s;
-         queue := queue s; qclosed := qclosed s; cons := cons s; handlers := handlers s;
-         close_todo := 1 + length (lclosed s) + (if fixed then 0 else 1); close_called := true; panicked := false |}
+      if close_called s then s
+      else upd_close s (cancelled s) (lclosed s) (qclosed s) (1 + length (lclosed s) + (if fixed then 0 else 1)) true
   | CloseStep =>
       match close_todo s with
       | O => s
       | S k =>
           let n := length (lclosed s) in
           let extra := if fixed then 0 else 1 in
-          (* order: cancel; close listener 0..n-1; (as found) close the queue *)
-          if Nat.eqb (S k) (1 + n + extra) then
-            {| srv_cancelled := true; first_err := first_err s; lclosed := lclosed s; pending := pending s; acc := acc s;
-               queue := queue s; qclosed := qclosed s; cons := cons s; handlers := handlers s; close_todo := k;
-               close_called := true; panicked := false |}
-          else if Nat.ltb extra (S k) || fixed then
-            {| srv_cancelled := srv_cancelled s; first_err := first_err s; lclosed := set_nth (lclosed s) (n + extra - S k) true;
-               pending := pending s; acc := acc s; queue := queue s; qclosed := qclosed s; cons := cons s;
-               handlers := handlers s; close_todo := k; close_called := true; panicked := false |}
-          else
-            {| srv_cancelled := srv_cancelled s; first_err := first_err s; lclosed := lclosed s; pending := pending s; acc := acc s;
-               queue := queue s; qclosed := true; cons := cons s; handlers := handlers s; close_todo := k;
-               close_called := true; panicked := false |}
+          (* order: cancel; close listener 0 .. n-1; (as found) close the queue *)
+          if Nat.eqb (S k) (1 + n + extra) then upd_close s true (lclosed s) (qclosed s) k true
+          else if Nat.ltb extra (S k) then upd_close s (cancelled s) (set_nth (lclosed s) (n + extra - S k) true) (qclosed s) k true
+          else upd_close s (cancelled s) (lclosed s) true k true
+      end
+  | MainReturn =>
+      match main s with
+      | MWait =>
+          if all_done s then
+            {| cancelled := cancelled s; first_err := first_err s; lclosed := lclosed s; pending := pending s; acc := acc s;
+               queue := 0; qclosed := qclosed s; cons := cons s; served := served s;
+               released := if fixed then released s + queue s else released s;
+               leaked := if fixed then leaked s else leaked s + queue s;
+               close_todo := close_todo s; close_called := close_called s;
+               main := MReturned (serve_result_of fixed s); panicked := false |}
+          else s
+      | MReturned _ => s
       end
   end.
 
 Definition grun (fixed : bool) (backlog : nat) (s : gst) (ls : list glabel) : gst := fold_left (gstep fixed backlog) ls s.
 
+(* [clients]: per listener, the connections that will arrive *)
 Definition ginit (clients : list nat) : gst :=
-  {| srv_cancelled := false; first_err := None; lclosed := map (fun _ => false) clients; pending := clients;
-     acc := map (fun _ => AAccept) clients; queue := 0; qclosed := false; cons := CSelect; handlers := 0;
-     close_todo := 0; close_called := false; panicked := false |}.
+  {| cancelled := false; first_err := None; lclosed := map (fun _ => false) clients; pending := clients;
+     acc := map (fun _ => AAccept) clients; queue := 0; qclosed := false; cons := CSelect;
+     served := 0; released := 0; leaked := 0; close_todo := 0; close_called := false; main := MWait; panicked := false |}.
 
-(* every serving goroutine has returned *)
-Definition all_done (s : gst) : bool :=
-  forallb (fun p => match p with ADone _ => true | _ => false end) (acc s) &&
-  match cons s with CDone => true | CSelect => false end.
+Definition sum (l : list nat) : nat := fold_right Nat.add 0 l.
+Definition held (s : gst) : nat := length (filter (fun p => match p with ASend => true | _ => false end) (acc s)).
 
-Inductive serve_result := ErrServerClosed | ListenerError | NoError.
-(* what ListenAndServe returns once eg.Wait returns *)
-Definition serve_result_of (fixed : bool) (s : gst) : serve_result :=
-  if fixed && srv_cancelled s then ErrServerClosed
-  else match first_err s with
-       | Some ECtx => ErrServerClosed
-       | Some EListener => ListenerError
-       | None => NoError
-       end.
+(* a decreasing measure: every effective step lowers it *)
+Definition aweight (p : apc) : nat := match p with ASend => 3 | AAccept => 1 | ADone => 0 end.
+Definition measure (s : gst) : nat :=
+  4 * sum (pending s) + sum (map aweight (acc s)) + queue s +
+  (match cons s with CSelect => 1 | CDone => 0 end) +
+  close_todo s + (if close_called s then 0 else 3 + length (lclosed s)) +
+  (match main s with MWait => 1 | MReturned _ => 0 end).
